@@ -29,6 +29,10 @@ PERMS = ["user_read", "user_write", "user_exec", "user_all", "group_read", "grou
          "other_read", "other_write", "other_exec", "other_all", "suid", "sgid"]
 CONTENT_COLS = ["sha1", "sha256", "sha512", "sha3", "line_count", "is_shebang"]
 SIZES = [0, 1, 2, 3, 100, 8191, 8192, 8193, 32767, 32768, 32769, 65535, 65536, 65537, 100000]
+# columns mixed into the meta query without being asserted themselves: evaluating them must not change what the asserted columns say
+NOISE_OPEN = ["is_text", "is_binary", "mime", "is_shebang", "has_xattrs", "capabilities"]  # look at the (link-followed) file
+NOISE = NOISE_OPEN + ["is_archive", "is_audio", "is_image", "is_source", "is_video", "ext", "abspath", "absdir", "dir", "fsize", "is_dir", "is_file", "is_pipe", "user_read", "suid", "device"]
+NOISE_BOOL = ["is_text", "is_binary", "is_shebang", "has_xattrs", "is_archive", "is_image", "is_dir", "is_file", "user_read"]
 # linux/capability.h, bit 0..40
 CAPS = ["chown", "dac_override", "dac_read_search", "fowner", "fsetid", "kill", "setgid", "setuid", "setpcap", "linux_immutable", "net_bind_service",
         "net_broadcast", "net_admin", "net_raw", "ipc_lock", "ipc_owner", "sys_module", "sys_rawio", "sys_chroot", "sys_ptrace", "sys_pacct", "sys_admin",
@@ -105,6 +109,13 @@ class Check:
         world["nodes"].append({"path": top + "/to_hollow", "type": "symlink", "target": "hollow"})
         world["nodes"].append({"path": top + "/to_empty_file", "type": "symlink", "target": "zero.dat"})
         world["nodes"].append({"path": top + "/zero.dat", "type": "file", "content": ""})
+        noise, noise_where = [], None
+        if rng.random() < 0.5:
+            noise = rng.sample(NOISE, rng.choice([1, 2, 3]))
+            if rng.random() < 0.4:
+                noise_where = rng.choice(NOISE_BOOL)
+            if noise_where in NOISE_OPEN or any(c in NOISE_OPEN for c in noise):
+                world["nodes"] = [n for n in world["nodes"] if n["type"] != "fifo"]  # opening a FIFO without a writer blocks (C17's recorded finding)
         _, plan = gen.gen_env(rng, world)
         users = {str(u): n for u, n in rng.sample([(0, "root"), (5, "games"), (1000, "alice"), (1001, "bob smith"), (65534, "nobody")], 3)}
         groups = {str(g): n for g, n in rng.sample([(0, "root"), (5, "tty"), (100, "users"), (1000, "staff")], 2)}
@@ -143,7 +154,7 @@ class Check:
             # the user's configuration replaces extension lists (the active configuration decides the extension classes)
             classes = {"is_archive": rng.sample([".zip", ".txt", ".gz", ".c", ".x1"], 2), "is_image": rng.sample([".jpg", ".md", ".o", ".py"], 2), "is_source": rng.sample([".rs", ".log", ".tar.gz", ".zip"], 2)}
         return {"sub": "meta", "world": world, "top": top, "plan": plan, "tz": rng.choice(["UTC", "Europe/Berlin", "America/New_York", "Asia/Kolkata"]),
-                "mode": rng.choice(["bfs", "dfs"]), "classes": classes}
+                "mode": rng.choice(["bfs", "dfs"]), "classes": classes, "noise": noise, "noise_where": noise_where, "shuffle": rng.randrange(1 << 30)}
 
     def gen_xattr(self, rng):
         top = rng.choice(gen.SAFE_ROOTS)
@@ -261,6 +272,14 @@ class Check:
             if case["tz"] != "UTC":
                 c = copy.deepcopy(case)
                 c["tz"] = "UTC"
+                yield c
+            for i in range(len(case.get("noise") or [])):
+                c = copy.deepcopy(case)
+                del c["noise"][i]
+                yield c
+            if case.get("noise_where"):
+                c = copy.deepcopy(case)
+                c["noise_where"] = None
                 yield c
 
     # ------------------------------------------------------------------ evaluation
@@ -394,7 +413,13 @@ class Check:
         if classes:
             cols += sorted(classes)
             config = "".join("%s = [%s]\n" % (k, ", ".join('"%s"' % e for e in v)) for k, v in sorted(classes.items()))
-        q = "select " + ", ".join(cols) + " from %s %s into list" % (top, case["mode"])
+        cols += [c for c in case.get("noise") or [] if c not in cols]
+        if case.get("noise"):
+            import random
+            random.Random(case.get("shuffle", 0)).shuffle(cols)
+        where = " where %s = true or size >= 0" % case["noise_where"] if case.get("noise_where") else ""
+        q = "select " + ", ".join(cols) + " from %s %s%s into list" % (top, case["mode"], where)
+        pi = cols.index("path")
         tz = zoneinfo.ZoneInfo(case["tz"])
         viols = []
         plan = case["plan"]
@@ -405,7 +430,7 @@ class Check:
                 return [Violation(PROP, "C04.meta", ["C04.meta", "abnormal_end", "-"], {"query": q, "outcome": res.summary()})]
             rows = res.rows(len(cols))
             want_paths = sorted(n["path"] for n in world["nodes"] if n["path"] != top)
-            if sorted(b2s(r[0]) for r in rows) != want_paths:
+            if sorted(b2s(r[pi]) for r in rows) != want_paths:
                 return [Violation(PROP, "C04.meta", ["C04.meta", "row_set", "-"], {"query": q, "rows": len(rows), "want": len(want_paths)})]
             users = plan.get("users", {})
             groups = plan.get("groups", {})
